@@ -252,3 +252,16 @@ func CheckVecStore(c VecContext, prop string, graph bool) error {
 	}
 	return nil
 }
+
+// ContextOf reads the persisted state of a vector index of an instance.
+func ContextOf(s *drive.Shard, m *model.Collection, prop string) (VecContext, error) {
+	vb, o, err := s.VecInfo(prop)
+	if err != nil {
+		return VecContext{}, err
+	}
+	pv, err := s.InspectPoints()
+	if err != nil {
+		return VecContext{}, err
+	}
+	return VecContext{M: m, Bucket: vb, Oracle: o, Points: pv}, nil
+}
